@@ -24,7 +24,7 @@ ASSUMPTIONS = [
 ]
 REQUIRED_CLASSES = ["nontrivial", "lattice", "walk", "arc", "hook", "closed", "repeated_points", "tol<=0",
                     "len<=2", "run_of_deletions", "nothing_deleted", "predicate_true", "predicate_false",
-                    "exact_tie", "almost_closed", "rescaled_by_power_of_two", "len>=66", "long_run"]
+                    "exact_tie", "almost_closed", "rescaled_by_power_of_two", "len>=66", "long_run", "far_chord", "vertices_as_tuples"]
 QUICK_SHARDS = 4
 
 plot_utils = sut.load("plot_utils")
@@ -37,7 +37,8 @@ def exact_max_sq(points):
 
 
 def body(ctx, case):
-    pts = [list(p) for p in case["points"]]          # fresh, distinct list objects
+    mk = tuple if case.get("tuples") else list         # vertices as [x, y] lists or as (x, y) tuples
+    pts = [mk(p) for p in case["points"]]             # fresh, distinct vertex objects
     tol = case["tol"]
     exact = bool(case.get("lattice"))
     classes = {case.get("kind", "other")}
@@ -47,6 +48,8 @@ def body(ctx, case):
         classes.add("closed")
     if case.get("almost_closed"):
         classes.add("almost_closed")
+    if case.get("tuples"):
+        classes.add("vertices_as_tuples")
     if case.get("shift"):
         classes.add("rescaled_by_power_of_two")
     if len(pts) >= 66:
@@ -89,7 +92,11 @@ def body(ctx, case):
         ctx.fail("%s changed a list it must leave alone: %r" % (what, work), case)
     # every deleted vertex is closer than tol to the segment joining its surviving neighbours
     ftol = F(tol)
-    limit = ftol * ftol if exact else (ftol * (1 + REL)) ** 2
+    # float conditioning: distances near `tol` are computed from cross products of coordinate differences of size
+    # `extent`, so their relative error is about eps * extent / tol; the tie band grows accordingly
+    extent = max([abs(F(c)) for p_ in original for c in p_] + [F(0)])
+    rel = REL if (exact or tol <= 0) else max(REL, F(64, 2 ** 52) * extent / ftol)
+    limit = ftol * ftol if exact else (ftol * (1 + rel)) ** 2
     for (ia, ib) in zip(idx, idx[1:]):
         a, b = geom.pt(original[ia]), geom.pt(original[ib])
         for k in range(ia + 1, ib):
@@ -104,7 +111,7 @@ def body(ctx, case):
     if len(original) >= 3 and tol > 0:
         d2 = exact_max_sq(original)
         t2 = ftol * ftol
-        band = (not exact) and abs(d2 - t2) <= 4 * REL * max(d2, t2)
+        band = (not exact) and abs(d2 - t2) <= 4 * rel * max(d2, t2)
         fast = call_sut(plot_utils.points_in_tolerance, [list(p) for p in original], tol)
         expect = d2 < t2
         if d2 == t2:
@@ -117,7 +124,7 @@ def body(ctx, case):
                          % (case["points"], tol, fast, math.sqrt(float(d2))), case)
             ref = call_sut(plot_utils.max_dist_from_n_points, [list(p) for p in original])
             if isinstance(ref, float) and not math.isnan(ref):
-                ref_band = abs(F(ref) ** 2 - t2) <= 4 * REL * max(d2, t2)
+                ref_band = abs(F(ref) ** 2 - t2) <= 4 * rel * max(d2, t2)
                 if not ref_band and (ref < tol) != bool(fast):
                     ctx.record(case, classes, deleted > 0)
                     ctx.fail("points_in_tolerance(%r, %r) = %r disagrees with max_dist_from_n_points = %r"
@@ -135,7 +142,7 @@ DYADIC_TOL = st.sampled_from([0.5, 1.0, 2.0, 0.25, 3.0, 5.0, 1.5, 8.0])
 @st.composite
 def cases(draw):
     kind = draw(st.sampled_from(["lattice", "lattice", "walk", "walk", "walk", "arc", "hook", "uniform",
-                                 "tiny", "long_run"]))
+                                 "tiny", "long_run", "far_chord"]))
     n = draw(st.one_of(st.integers(0, 4), st.integers(3, 16)))
     lattice = kind in ("lattice", "tiny", "long_run")
     pts = []
@@ -154,6 +161,19 @@ def cases(draw):
         if draw(st.booleans()):
             for i in range(draw(st.sampled_from([3, 64, 70]))):
                 pts.append([float(m + tail + i), pts[-1][1] if i else pts[-1][1]])
+    elif kind == "far_chord":
+        # a chord 1e5..1e9 times longer than the tolerance with vertices a few tolerances (or a fraction) off it
+        length = 10.0 ** draw(st.integers(0, 4))
+        tol = length / 10.0 ** draw(st.integers(5, 9))
+        ang = draw(st.integers(0, 359)) * math.pi / 180
+        ux, uy = math.cos(ang), math.sin(ang)
+        x0, y0 = length * draw(st.integers(-3, 3)), length * draw(st.integers(-3, 3))
+        pts = [[x0, y0]]
+        for i in range(draw(st.integers(1, 4))):
+            t = draw(st.sampled_from([0.1, 0.3, 0.5, 0.7, 0.9]))
+            off = tol * draw(st.sampled_from([0.0, 0.3, 0.6, 0.9, 1.5, 2.3, 5.0, -2.3, -0.6, 30.0]))
+            pts.append([x0 + t * length * ux - off * uy, y0 + t * length * uy + off * ux])
+        pts.append([x0 + length * ux, y0 + length * uy])
     elif kind == "tiny":
         n = draw(st.integers(0, 3))
         pts = [[float(draw(st.integers(-3, 3))), float(draw(st.integers(-3, 3)))] for _ in range(n)]
@@ -234,7 +254,7 @@ def cases(draw):
         pts = [[p[0] * f, p[1] * f] for p in pts]
         tol = tol * f
     return {"points": pts, "tol": tol, "lattice": lattice, "kind": kind, "closed": closed, "almost_closed": almost,
-            "shift": shift}
+            "shift": shift, "tuples": draw(st.integers(0, 3)) == 0}
 
 
 def lattice_grid():
